@@ -214,7 +214,8 @@ structure MapsOK (cD : Config (Dual K)) (cR : Config K) : Prop where
   smRe : ∀ (ξ : Vec (Dual K)) (i : Nat), vre (cD.sm.toPhysical ξ i) = cR.sm.toPhysical (vre ξ) i
   smDu : ∀ (ξ : Vec (Dual K)) (i : Nat) (g : Vec K), ξ.length = cR.sm.udim i →
       dot g (vdu (cD.sm.toPhysical ξ i)) = dot (cR.sm.backwardGrad (vre ξ) g i) (vdu ξ)
-  smLen : ∀ (ξ : Vec K) (i : Nat) (g : Vec K), ξ.length = cR.sm.udim i → (cR.sm.backwardGrad ξ g i).length = cR.sm.udim i
+  smLen : ∀ (ξ : Vec K) (i : Nat) (g : Vec K), ξ.length = cR.sm.udim i → g.length = cR.dim →
+      (cR.sm.backwardGrad ξ g i).length = cR.sm.udim i
 
 theorem layout_eq (cD : Config (Dual K)) (cR : Config K) (hm : MapsOK cD cR) : cD.layout = cR.layout := by
   simp only [Config.layout, hm.order, hm.dim, hm.flags, hm.n, hm.udim]
@@ -255,6 +256,7 @@ abbrev bgOf (g : GradsND K) : DBlock → Vec K := blockGradOf g
 theorem assemble_adjoint (cD : Config (Dual K)) (cR : Config K) (hm : MapsOK cD cR) (x : List (Dual K)) (g : GradsND K)
     (hn : 0 < cR.n) (hx : x.length = cR.layout.total) (hgt : g.times.length = cR.n)
     (hbg : ∀ b ∈ derivBlocks cR.order cR.flags, (bgOf g b).length = cR.dim)
+    (hpg : ∀ i, i ≤ cR.n → (gpOf cR.n g i).length = cR.dim)
     (hwl : cD.refWaypoints.length = cR.n + 1) :
     dot g.times ((decode cD x).times.map Dual.du)
       + (cR.layout.vars.map (fun v => dot (gpOf cR.n g v.point) (vdu ((decode cD x).waypoints.getD v.point [])))).sum
@@ -291,7 +293,7 @@ theorem assemble_adjoint (cD : Config (Dual K)) (cR : Config K) (hm : MapsOK cD 
   have hbgl : ∀ v ∈ vars, (bgv v).length = v.dof := by
     intro v hv
     rw [hbgv, (hvs v hv).1]
-    apply hm.smLen
+    apply hm.smLen _ _ _ ?_ (hpg v.point (by have := hpt v hv; omega))
     rw [← (hvs v hv).1]
     have hb : v.offset + v.dof ≤ xR.length := by
       have := ((packedL_bounds doff 0 cR.n vars hpk).2 v hv).2
